@@ -137,6 +137,32 @@ def run(ctx):
             if not ok:
                 why = f" — the compared lengths derive from parameters {sorted(ra)} and {sorted(rb)}; they must be the lengths of `self` alone and `other` alone (not of the truncated prefixes, which are always equal)"
         ctx.check(ok, "R14.3", b.loc(), "Vec::cmp|length-fallback", "Vec::cmp must fall back to the order of the two lists' lengths when one list is a prefix of the other" + why, instance="Vec::cmp: falls back to self.len().cmp(other.len()) (operands rooted in self / other only)")
+    # maps: the comparison of two maps is the lexicographic comparison of their (key, value) sequences *including their lengths*:
+    # Iterator::cmp / eq over both entry iterators does that; a hand-written pairwise loop must fall back to the lengths
+    for mname in ("cmp", "eq"):
+        mb_ = [b for b in c.bodies if b.trait == DOPS and ty_adt(b.self_ty) == "alloc::collections::btree::map::BTreeMap" and b.name == mname]
+        if len(mb_) != 1:
+            continue
+        eb = inline.expand(c, mb_[0], depth=2, pred=lambda cb: cb.d.get("vis") != "pub", lower=True)
+        trm = Tracer(eb, through_calls=True, through_agg=True)
+        whole = [t for _, t in eb.calls() if t["call"]["def"].startswith("core::iter::traits::iterator::Iterator::") and t["call"]["name"] in (("cmp", "cmp_by") if mname == "cmp" else ("eq", "eq_by")) and len(t["args"]) >= 2]
+        ok = False
+        why = ""
+        if len(whole) == 1:
+            ra, rb = trm.root_locals(whole[0]["args"][0]), trm.root_locals(whole[0]["args"][1])
+            ok = {frozenset(ra), frozenset(rb)} == {frozenset({1}), frozenset({2})}
+            why = f"Iterator::{whole[0]['call']['name']} over iterators rooted in parameters {sorted(ra)} / {sorted(rb)}"
+        else:
+            lens = [t for _, t in eb.calls() if t["call"]["name"] == "len"]
+            lc = [t for _, t in eb.calls() if t["call"]["name"] in ("cmp", "eq", "ne") and tystr(strip_refs((t["call"].get("substs") or [{}])[0])) == "usize"]
+            lb = [s_ for _, _, s_ in eb.stmts() if "bin" in s_["r"] and s_["r"]["bin"] in ("Eq", "Ne") and (s_["r"].get("aty") or {}).get("prim") == "usize"]
+            cands = [(t["args"][0], t["args"][1]) for t in lc] + [(s_["r"]["a"], s_["r"]["b"]) for s_ in lb]
+            for a_, b_ in cands:
+                if {frozenset(trm.root_locals(a_)), frozenset(trm.root_locals(b_))} == {frozenset({1}), frozenset({2})}:
+                    ok = True
+            why = f"no whole-sequence Iterator::{mname} and {len(cands)} length comparison(s), none between the lengths of `self` and `other`"
+        ctx.check(ok, "R14.3", mb_[0].loc(), f"BTreeMap::{mname}|length", f"BTreeMap::{mname} must take the number of entries into account when one map's entries are a prefix of the other's ({why}): otherwise a map and its extension compare Equal although they are different values",
+                  instance=f"BTreeMap::{mname}: {why if ok else 'lengths compared'}")
     # ---------------- R14.4 Option tables
     I = minterp.Interp(F, c, inline=lambda d, i: False)
     oe = [b for b in c.bodies if b.trait == DOPS and ty_adt(b.self_ty) == "core::option::Option" and b.name == "eq"]
